@@ -3,6 +3,7 @@ import RactorModel.Lemmas.Agreement
 import RactorModel.Lemmas.HandshakeRefine
 import RactorModel.Lemmas.HandshakeProgress
 import RactorModel.Lemmas.NodeState
+import RactorModel.Lemmas.CheckSession
 
 /-!
 # C18 — duplicate connections converge on one and the same link
@@ -304,6 +305,47 @@ theorem unauthenticated_cannot_influence_ready (thisName : String) (l1 l2 : List
     (NS.mk thisName (l1 ++ u :: l2)).isElected id = (NS.mk thisName (l1 ++ l2)).isElected id :=
   isElected_insert thisName l1 l2 u id hu hid
 
+/-- (non-interference, the function the sessions call) `check_candidate` is not what a session
+asks: it asks `CheckSession` with its peer's name and its own nonce (`check_session`), which
+first looks for the sessions registered under that (name, nonce) — authenticated or not. For an
+asker `s` (registered, wire-valid nonce) and ANY unauthenticated other session `u`: the reply with
+`u` in the table is the reply without `u`, or `NoOtherConnection`; and it IS the reply without `u`
+unless `u` claims exactly the asker's (name, nonce). Equality does NOT hold in general (example
+below): a spoofer that shares (name, nonce 0) turns `OtherConnectionContinues` into
+`NoOtherConnection`. -/
+theorem unauthenticated_can_only_let_continue (thisName : String) (l1 l2 : List Session) (u s : Session)
+    (peer : String) (hu : u.auth = false) (hs : s ∈ l1 ++ l2) (hp : s.peerName = some peer)
+    (hw : s.conn ≠ some 0) (hid : ∀ x ∈ l1 ++ l2, x.id ≠ u.id) :
+    ((NS.mk thisName (l1 ++ u :: l2)).checkSession peer (s.conn.getD 0) =
+        (NS.mk thisName (l1 ++ l2)).checkSession peer (s.conn.getD 0) ∨
+     (NS.mk thisName (l1 ++ u :: l2)).checkSession peer (s.conn.getD 0) = .noOther) ∧
+    ((u.peerName == some peer && u.conn == (if s.conn.getD 0 == 0 then none else some (s.conn.getD 0))) = false →
+     (NS.mk thisName (l1 ++ u :: l2)).checkSession peer (s.conn.getD 0) =
+        (NS.mk thisName (l1 ++ l2)).checkSession peer (s.conn.getD 0)) :=
+  checkSession_insert thisName l1 l2 u s peer hu hs hp hw hid
+
+/-- (no veto) Consequently an unauthenticated session can never make `CheckSession` tell another
+session to stop: a reply that lets the asker continue without the spoofer lets it continue with it. -/
+theorem unauthenticated_cannot_veto_check_session (thisName : String) (l1 l2 : List Session) (u s : Session)
+    (peer : String) (hu : u.auth = false) (hs : s ∈ l1 ++ l2) (hp : s.peerName = some peer)
+    (hw : s.conn ≠ some 0) (hid : ∀ x ∈ l1 ++ l2, x.id ≠ u.id)
+    (hc : ((NS.mk thisName (l1 ++ l2)).checkSession peer (s.conn.getD 0)).continues = true) :
+    ((NS.mk thisName (l1 ++ u :: l2)).checkSession peer (s.conn.getD 0)).continues = true := by
+  rcases (checkSession_insert thisName l1 l2 u s peer hu hs hp hw hid).1 with h | h
+  · rw [h]; exact hc
+  · rw [h]; rfl
+
+/-- the flip (the auditor's counter-example, reproduced on the real `NodeServerState` by the
+`ni checks` ops): session 1 (legacy nonce, unauthenticated) loses against the authenticated session 2;
+a spoofer 3 sharing (name, nonce 0) makes its query ambiguous and the reply `NoOtherConnection`. What
+survives among AUTHENTICATED sessions is decided by `commit_authenticated` alone, which the spoofer
+cannot influence (`unauthenticated_cannot_influence_commit`). -/
+example :
+    (NS.mk "b@h" [⟨1, true, some "a@h", none, false⟩, ⟨2, true, some "a@h", some 5, true⟩]).checkSession "a@h" 0
+      = .otherContinues ∧
+    (NS.mk "b@h" [⟨1, true, some "a@h", none, false⟩, ⟨3, true, some "a@h", none, false⟩,
+                  ⟨2, true, some "a@h", some 5, true⟩]).checkSession "a@h" 0 = .noOther := by decide
+
 /-- (stability) An elected set re-elects itself: a second election closes nothing more. -/
 theorem elected_set_is_stable (o : Ordering) (cs : List Cand) :
     elect o (pipeline o cs) = elect o cs := by
@@ -397,6 +439,8 @@ end C18
 #print axioms C18.unauthenticated_cannot_influence_commit
 #print axioms C18.unauthenticated_cannot_influence_check
 #print axioms C18.unauthenticated_cannot_influence_ready
+#print axioms C18.unauthenticated_can_only_let_continue
+#print axioms C18.unauthenticated_cannot_veto_check_session
 #print axioms C18.elected_set_is_stable
 #print axioms C18.commit_leaves_elected_set
 #print axioms C18.elected_session_continues
